@@ -248,7 +248,15 @@ mod verif_termmgr {
                 }
                 k += 1;
             }
-            assert!(it.next().is_none()); // fused
+            // fused; (an `Option<Edge>` temporary must not be dropped: `Edge::drop` drags the whole
+            // backtrace printing machinery into the model)
+            match it.next() {
+                None => {}
+                Some(e) => {
+                    std::mem::forget(e);
+                    assert!(false);
+                }
+            }
         }
         assert!(n == m.n_live());
         check(tm, m);
@@ -328,7 +336,7 @@ mod verif_termmgr {
         }
     }
 
-    fn lifecycle3(layout: u8) {
+    fn lifecycle3(layout: u8, rel: [bool; 3]) {
         set_layout(layout);
         let (tm, mut m) = fresh::<3>();
         step_iter(&tm, &mut m); // (5) empty
@@ -343,7 +351,6 @@ mod verif_termmgr {
         step_release(&tm, &mut m, i2);
         step_iter(&tm, &mut m); // (5) three live terminals
         // release every reference of an arbitrary subset
-        let rel: [bool; 3] = kani::any();
         let ids = [i0, i1, i2];
         let mut nrel = 0usize;
         let mut i = 0;
@@ -383,16 +390,78 @@ mod verif_termmgr {
         assert!(step_gc(&tm, &mut m) == 3 && tm.len() == 0);
         step_iter(&tm, &mut m);
         assert!(step_get(&tm, &mut m, 0).is_some()); // usable again after the table shrank to 0 slots
-        kani::cover!(nrel == 0);
-        kani::cover!(nrel == 1);
-        kani::cover!(nrel == 2);
-        kani::cover!(nrel == 3);
         std::mem::forget(tm);
     }
-    harness_a!(lifecycle3_total_collision, lifecycle3(0));
-    harness_a!(lifecycle3_same_home, lifecycle3(1));
-    harness_a!(lifecycle3_distinct_homes, lifecycle3(2));
-    harness_a!(lifecycle3_pairs_collide, lifecycle3(3));
+    // real shrinking rehash inside gc() with one / two survivors (no reserve_rehash stub)
+    harness_a!(real_rehash3_same_home, lifecycle3(1, [true, false, true]));
+    harness_a!(real_rehash3_total_collision, lifecycle3(0, [false, true, false]));
+
+    /// family A', capacity 5: concrete hash layout, concrete values, concrete victim `k`; `reserve_rehash` stubbed as in
+    /// family B (gc() leaves four survivors: the table must not shrink; the final gc() empties it)
+    fn lifecycle5(layout: u8, k: usize) {
+        set_layout(layout);
+        let (tm, mut m) = fresh::<5>();
+        step_iter(&tm, &mut m); // (5) empty
+        let mut ids = [0usize; 5];
+        let mut i = 0;
+        while i < 5 {
+            ids[i] = step_get(&tm, &mut m, i as u8).unwrap();
+            let mut j = 0;
+            while j < i {
+                assert!(ids[j] != ids[i]); // (1)
+                j += 1;
+            }
+            i += 1;
+        }
+        assert!(step_get(&tm, &mut m, 2) == Some(ids[2])); // (1)
+        assert!(step_get(&tm, &mut m, 5).is_none()); // (4) full: new value refused, nothing changes
+        assert!(step_get(&tm, &mut m, 4) == Some(ids[4])); // (4) existing value still succeeds
+        step_retain(&tm, &mut m, ids[0]); // (2)
+        step_release(&tm, &mut m, ids[0]);
+        step_iter(&tm, &mut m); // (5) five live terminals
+        release_all(&tm, &mut m, ids[k]);
+        assert!(step_gc(&tm, &mut m) == 1 && tm.len() == 4); // (3)
+        i = 0;
+        while i < 5 {
+            assert!(index_finds(&tm, i as u8, hash_of(i as u8)) == (i != k)); // (3) the index finds exactly the survivors
+            i += 1;
+        }
+        assert!(step_gc(&tm, &mut m) == 0); // nothing left to collect
+        assert!(step_get(&tm, &mut m, 6) == Some(ids[k])); // (3) the freed slot is reused
+        assert!(step_get(&tm, &mut m, 7).is_none()); // and there is no other
+        step_iter(&tm, &mut m); // (5)
+        i = 0;
+        while i < 5 {
+            release_all(&tm, &mut m, i);
+            i += 1;
+        }
+        assert!(step_gc(&tm, &mut m) == 5 && tm.len() == 0); // (3)
+        step_iter(&tm, &mut m);
+        // (3) all five slots are reusable, each id handed out once
+        i = 0;
+        while i < 5 {
+            assert!(step_get(&tm, &mut m, 10 + i as u8).is_some());
+            i += 1;
+        }
+        assert!(step_get(&tm, &mut m, 9).is_none());
+        std::mem::forget(tm);
+    }
+    harness_b!(lifecycle5_total_collision, {
+        lifecycle5(0, 0);
+        lifecycle5(0, 3);
+    });
+    harness_b!(lifecycle5_same_home, {
+        lifecycle5(1, 4);
+        lifecycle5(1, 1);
+    });
+    harness_b!(lifecycle5_distinct_homes, {
+        lifecycle5(2, 2);
+        lifecycle5(2, 4);
+    });
+    harness_b!(lifecycle5_pairs_collide, {
+        lifecycle5(3, 0);
+        lifecycle5(3, 1);
+    });
 
     /// the same life cycle with the REAL hash function (FxHasher, no `hash` stub); the values 0x01, 0x11, 0x21, ..
     /// share their home slot (low nibble of v * 0x517cc1b727220a95)
